@@ -371,11 +371,18 @@ def floor_C16(ctx, agg):
     return miss
 
 
+VALGRIND = ["valgrind", "-q", "--tool=memcheck", "--error-exitcode=0", "--error-limit=no", "--num-callers=12", "--undef-value-errors=yes", "--leak-check=no"]
+
+
 def run_C15(ctx):
     ctx.run("asm", "eng_thr.c", mode="prefill")
+    for lvl in (("avx2", "sse", "base") if not ctx.thorough else ("avx2", "avx", "sse", "base", "avx512")):   # same differential under lesser dispatcher outcomes
+        ctx.run("asm", "eng_thr.c", mode="prefill:" + lvl)
     for lvl in ("native", "avx2", "avx", "sse", "base"):       # library data read-only under several dispatcher outcomes
         ctx.run("so", "eng_thr.c", mode="ro:" + lvl, nshards=1)
     ctx.run("asm", "eng_thr.c", mode="cold")
+    # memcheck definedness tracking: all caller memory undefined, result digests must come out fully defined
+    ctx.run("asm", "eng_thr.c", mode="taint", wrapper=VALGRIND, timeout=3000 if not ctx.thorough else 14000)
     ctx.run("c-tsan", "eng_thr.c", mode="threads", nshards=1, env_extra={"TSAN_OPTIONS": "halt_on_error=0:exitcode=0:report_signal_unsafe=0"})
     if ctx.thorough:
         ctx.run("c-asan", "eng_thr.c", mode="prefill", scale=1.0)
@@ -387,12 +394,17 @@ def cov_C15(ctx, agg):
     return {"rule": "11 API scenarios (one-shot and streaming compression, decompression, table creation, dictionaries, erasure code, checksums/zero detect, RAID, headers, reuse histories for deflate and inflate) x up to 160 parameter variants; (e) each variant run 10 times: context / level_buf / output / output structs pre-filled with 00, FF, A5, random bytes, 32-bit words of 9, at two different addresses; reuse histories {use,reset,reuse keeping user fields | use,reset,re-set fields | use,init,reuse} compared with a fresh context; (a) 16 threads with independent contexts and shared read-only inputs after every writable page of libisal.so has been made read-only; (b) first calls raced from 2/4/16 threads in fresh processes; (c) the threaded workload on the all-C build under ThreadSanitizer; distinct = distinct (scenario, variant, repetition)",
             "explanation": "digest of everything observable (output bytes, return codes, totals, final states, output structs) must be identical across prefills, addresses, reuse histories, threads and serial execution; a write to library-owned data after warm-up faults",
             "threads": int(st.get("threads", 0)), "library_pages_made_read_only": int(st.get("library_pages_made_read_only", 0)), "cold_start_processes": int(st.get("cold_start_processes", 0)), "direct_kernel_variant_calls_under_protection": int(st.get("direct_kernel_variant_calls_under_protection", 0)), "cpu_levels_with_read_only_library_data": sorted(agg.sets.get("cpu_levels", [])),
-            "scenario_runs": dict(sorted(agg.cnts.get("scenario_runs", {}).items())), "tsan_reports": int(st.get("tsan_reports", 0))}
+            "scenario_runs": dict(sorted(agg.cnts.get("scenario_runs", {}).items())), "tsan_reports": int(st.get("tsan_reports", 0)),
+            "prefill_differential_cpu_levels": sorted(agg.sets.get("prefill_cpu_levels", [])),
+            "memcheck_taint": {"what": "valgrind memcheck run of every scenario with all caller-provided memory (context, level_buf, output, scratch) marked undefined; the digest of everything observable must be fully defined (data-flow taint; control-flow dependence is decided by the prefill differential, memcheck's branch reports are only counted)",
+                               "runs": int(st.get("taint_runs", 0)), "bytes_marked_undefined": int(st.get("bytes_marked_undefined", 0)), "monitor_selftest_flagged": int(st.get("monitor_selftest_flagged", 0)),
+                               "scenario_runs": dict(sorted(agg.cnts.get("taint_scenario_runs", {}).items())),
+                               "uninit_branch_or_address_reports_not_judged": int(st.get("memcheck_uninit_branch_or_address_reports_not_judged", 0))}}
 
 
 PROPS = {
     "C15": dict(run=run_C15, level="exploration", coverage=cov_C15,
-                floors=lambda ctx, agg: ([] if agg.stats.get("library_pages_made_read_only", 0) > 0 else ["no library pages protected"]) + ([] if agg.stats.get("threads", 0) >= 16 else ["threads"]) + ([] if agg.stats.get("cold_start_processes", 0) >= 11 else ["cold starts %d" % agg.stats.get("cold_start_processes", 0)]),
+                floors=lambda ctx, agg: ([] if agg.stats.get("taint_runs", 0) >= 100 else ["only %d memcheck taint runs" % agg.stats.get("taint_runs", 0)]) + ([] if agg.stats.get("library_pages_made_read_only", 0) > 0 else ["no library pages protected"]) + ([] if agg.stats.get("threads", 0) >= 16 else ["threads"]) + ([] if agg.stats.get("cold_start_processes", 0) >= 11 else ["cold starts %d" % agg.stats.get("cold_start_processes", 0)]),
                 assumptions=["'for all interleavings' is replaced by the observation that nothing in library-owned memory is written after the one-time selection, plus stress; the benign idempotent slot store of the resolvers is excluded by warming up first",
                              "isal_update_histogram accumulates into a caller-zeroed histogram (documented usage)"]),
     "C16": dict(run=run_C16, level="exploration", coverage=cov_C16, floors=floor_C16,
